@@ -496,8 +496,37 @@ func applyReal(pj *simdjson.ParsedJson, docs []*ref.Node, o editOp) (apiErr erro
 		if o.form == 0 || o.form == 2 {
 			fn = onMember
 		}
+		var twin *simdjson.ParsedJson
+		if filter != nil && uniqueKeys(n) {
+			twin = pj.Clone(nil)
+		}
 		if err := obj.DeleteElems(fn, filter); err != nil {
 			return err, ""
+		}
+		if twin != nil && cbBad == "" {
+			// the caller keeps its filter: the very same map handed to the same call on a copy
+			// of the document as it was has to select the same members once more
+			if tit, terr := navigate(twin, o.p, o.route); terr == nil {
+				if tobj, oerr := tit.Object(nil); oerr == nil {
+					var tfn func(key []byte, i simdjson.Iter) bool
+					if fn != nil {
+						tfn = func(key []byte, i simdjson.Iter) bool {
+							for m := range n.Elems {
+								if bytes.Equal(n.Keys[m], key) {
+									return del[m]
+								}
+							}
+							return false
+						}
+					}
+					if err := tobj.DeleteElems(tfn, filter); err != nil {
+						return nil, fmt.Sprintf("the same DeleteElems call with the same filter map on a copy of the document fails: %v", err)
+					}
+					if a, b := stateKey(pj), stateKey(twin); a != b {
+						return nil, fmt.Sprintf("the filter map of the first call (%d keys selected), handed to the same DeleteElems call on a copy of the document as it was, leaves a different document: the first call changed its caller's filter (now %d keys)", bitsSet(o.subset, len(n.Elems)), len(filter))
+					}
+				}
+			}
 		}
 	}
 	if cbBad != "" {
@@ -869,4 +898,14 @@ func stateKey(pj *simdjson.ParsedJson) string {
 		sb.Write(pj.Strings.B)
 	}
 	return sb.String()
+}
+
+func bitsSet(mask uint32, n int) int {
+	c := 0
+	for i := 0; i < n; i++ {
+		if mask&(1<<uint(i)) != 0 {
+			c++
+		}
+	}
+	return c
 }
